@@ -95,6 +95,10 @@ func (exec *Executor) execUnaryMathExpr(
 	var val any
 
 	for _, v := range seq.list {
+		if err := interrupted(ctx); err != nil {
+			return statusFailed, err
+		}
+
 		val = v
 		ok := true
 		switch v := v.(type) {
